@@ -3,7 +3,8 @@
 From Coq Require Import NArith ZArith List Bool.
 From Coq.Strings Require Import Byte.
 From LOF Require Import Base.Bytes Base.Res Model.Wire Model.Build Model.Parse Spec.Walk Proofs.ParseRtP
-  Proofs.WalkAllP Proofs.WalkMsgP Proofs.ParseRtAllP Proofs.ParseRtAll3P Proofs.ParseRtAll4P Proofs.ParseRtAll6P Proofs.ParseRtAll7P.
+  Proofs.WalkAllP Proofs.WalkMsgP Proofs.ParseRtAllP Proofs.ParseRtAll3P Proofs.ParseRtAll4P Proofs.ParseRtAll6P Proofs.ParseRtAll7P
+  Model.BuildSw Proofs.NormP Proofs.ParseSwAll2P Proofs.ParseSwAll3P Proofs.ParseSwRtP.
 Import ListNotations.
 Open Scope N_scope.
 
@@ -73,3 +74,22 @@ Print Assumptions C05_example_meets_hypothesis.
 Theorem C05_roundtrip_examples : Forall (fun t => parse_top (fst (marshal t)) = Ok (snd (marshal t))) rt_examples.
 Proof. exact rt_examples_ok. Qed.
 Print Assumptions C05_roundtrip_examples.
+
+(* ---- the switch-side kinds, which the library also encodes: a value parsed from its frame
+   re-encodes to the same bytes (the frame is the specification encoding of the value, which
+   the correspondence run ties to the library's own encoder).  [sw_plain]: every kind of
+   Model/BuildSw.v except flow statistics (next theorem) and a packet-in without packet data,
+   to which the parser attaches the zero Ethernet value, so that it re-encodes 14 bytes longer
+   (a library-built packet-in always carries an Ethernet value; see C04 for the parse side) *)
+Theorem C05_switch_side_roundtrip : forall s xid, sw_ok s = true -> sw_payload_ok s -> sw_payload_shaped s -> sw_plain s = true -> xid < 4294967296 ->
+  parse_top (wire (sw_tree xid s)) = Ok (sw_tree xid s) /\ fst (marshal (sw_tree xid s)) = wire (sw_tree xid s).
+Proof. exact sw_roundtrip. Qed.
+Print Assumptions C05_switch_side_roundtrip.
+
+(* flow statistics, any number of records with any instructions: the parsed records carry the
+   instructions in their wire view, and re-encode to the written records *)
+Theorem C05_flow_statistics_roundtrip : forall fl recs xid, sw_ok (SMpFlow fl recs) = true -> xid < 4294967296 ->
+  parse_top (wire (sw_tree xid (SMpFlow fl recs))) = Ok (sw_view xid (SMpFlow fl recs)) /\
+  fst (marshal (sw_view xid (SMpFlow fl recs))) = wire (sw_tree xid (SMpFlow fl recs)).
+Proof. exact sw_flowstats_roundtrip. Qed.
+Print Assumptions C05_flow_statistics_roundtrip.
